@@ -191,11 +191,12 @@ def h1h2(case):
     fcs = filter_classes(case["script"])
     for op in case["script"]:
         if op[0] == "cmd":
-            if len([f for f in msgs_of(op[2]) if f[0] in fcs]) != 1:
+            r = [f for f in msgs_of(op[2]) if f[0] in fcs]
+            if len(r) != 1 or r[0][0] != op[1]:        # ... and it is the one this command waits for
                 return False
     return not [f for f in msgs_of(case.get("spont", [])) if f[0] in fcs]
 
 
 def expected_response(op, fcs):
     r = [f for f in msgs_of(op[2]) if f[0] in fcs]
-    return r[0] if len(r) == 1 else None
+    return r[0] if len(r) == 1 and r[0][0] == op[1] else None
